@@ -223,6 +223,16 @@ func CondEdges(fn *ssa.Function, match func(cond ssa.Value) (bool, bool)) []Edge
 			out = append(out, IfEdge(b, neg, truth))
 		}
 	}
+	// The last operand of `a && b` / `a || b` is not tested by an If of its own when go/ssa
+	// lowers the expression to a phi (tagless switch cases, conditions stored in variables):
+	// on the edge where the phi differs from its constant arms it carries that operand.
+	for _, want := range []bool{true, false} {
+		want := want
+		out = append(out, DerivedBoolEdges(fn, func(v ssa.Value) bool {
+			ok, truth := match(v)
+			return ok && truth == want
+		}, want)...)
+	}
 	return out
 }
 
